@@ -120,7 +120,7 @@ def histories():
                 continue
             if sum(1 for o in h if o.startswith("create")) > 4:
                 continue
-            if d == DEPTH and (zlib.crc32(repr(h).encode()) + a.seed) % (80 if a.tier == "quick" else 8):
+            if d == DEPTH and (zlib.crc32(repr(h).encode()) + a.seed) % (80 if a.tier == "quick" else 32):
                 continue
             yield h
 
@@ -135,4 +135,4 @@ with multiprocessing.get_context("fork").Pool(16) as pool:
         if msg:
             rep.fail(f"census::{kind}::{'after-clear' if 'clear' in h else 'no-clear'}", f"history {list(h)}: {msg}", {"history": list(h)})
 SymbolGraph().clear()
-rep.finish(exhaustive=(a.tier != "quick"))
+rep.finish(exhaustive=False)
